@@ -10,7 +10,8 @@ from autobean_refactor.models.internal.surrounding_comments import SurroundingCo
 CASES = {'quick': 1500, 'thorough': 40000}
 GATES = {
     'quick': {'evaluations': 30000, 'equal_pairs': 15000, 'token_perturbations': 4000, 'child_perturbations': 2500,
-              'attribution_perturbations': 500, 'type_perturbations': 300, 'class_fields_perturbed': 120, 'token_law_pairs': 10000},
+              'attribution_perturbations': 500, 'type_perturbations': 300, 'class_fields_perturbed': 120, 'token_law_pairs': 10000,
+              'whole_file_text_perturbations': 3000},
     'thorough': {'evaluations': 800000, 'class_fields_perturbed': 160},
 }
 RULE = ('case = one accepted generated document. Equal pairs: two parses of the text and a model and its deepcopy, compared root and '
@@ -126,6 +127,20 @@ def run_case(col, r, idx):
             return
         if eq and hash(x) != hash(y):
             col.violation('token-hash', f'{x!r} == {y!r} but their hashes differ', wit)
+            return
+    # (0) same document with a token added or removed outside every directive (trailing / leading blank lines, final newline):
+    #     the printed texts differ, so the files must be unequal
+    for v in (text + '\n', text + '  ', '\n' + text, text.rstrip('\r\n'), text.rstrip('\r\n \t'), text + '\n\n', text + '\n; tail comment'):
+        if v == text:
+            continue
+        try:
+            bv = P.parse(v, models.File, auto_claim_comments=acl)
+        except Exception:
+            continue
+        col.count('whole_file_text_perturbations')
+        col.nontrivial(text, 'file-text', v[-12:], len(v))
+        if not expect_unequal(col, a, bv, 'file-text-differs', 'two files whose printed texts differ only outside the directives',
+                              dict(wit, other_text=v)):
             return
     # (1) token text perturbation
     vis = [t for t in toks if t.raw_text]
